@@ -67,7 +67,14 @@ func (g *gen) cond() string { return conds[g.r.Intn(len(conds))] }
 // simple statements over the fixed variable set of a goto function / structured function:
 //   a int, b []int, q *int (params); s, t int; arr [4]int; p *int; f func() int; m map[int]int; tt T; ii I
 func (g *gen) simple(depth int) string {
-	switch g.r.Intn(40) {
+	switch g.r.Intn(43) {
+	case 40:
+		// go1.22 loop whose variable escapes (the loop header keeps its phi) and whose post statement is unreachable
+		return "for i := 0; i < a; i++ { f = func() int { return i + s }; break }"
+	case 41:
+		return "for i := a; i > 0; i-- { p = &i; if s > 3 { break }; t++; break }"
+	case 42:
+		return "for i, j := 0, a; i < j; i, j = i+1, j-1 { f = func() int { return i * j }; if t > s { continue }; s++ }"
 	case 26:
 		// loop whose post statement is unreachable: the loop header loses a predecessor in deleteUnreachableBlocks
 		return "for i := 0; i < a; i++ { t += i; break }"
